@@ -25,7 +25,9 @@ is a no-op here.
 
 The second half composes this with the poll protocol of `St4sd.Repeat`: in the composed system nobody but the
 subscription calls `notify_all_producers_finished` (`Ev.fin` is not an operation of the environment any more,
-it is the output of the subscription).
+it is the output of the subscription).  `refs` of the subscription is the list of the components of
+`Repeat.Cfg.prods` (`ComponentState.producers` and `Job.producerInstances` both have one entry per data
+reference, in order); `XEv.out c` is output of component `c`.
 No Mathlib import (this file is linked into `drv-c13`).
 -/
 namespace St4sd.RepeatSub
@@ -79,11 +81,11 @@ def subExec (refs : List Pid) (h : List SubOp) : Sub := subRun (Sub.init refs) h
 /-! ## Composition with the poll protocol -/
 
 /-- operations of the environment of the composed system: everything of `Repeat.Ev` but `fin` -/
-inductive XEv | out | kill | die | adv
+inductive XEv | out (c : Nat) | kill | die | adv
   deriving DecidableEq, Repr
 
 def XEv.toEv : XEv → Ev
-  | .out => .out | .kill => .kill | .die => .die | .adv => .adv
+  | .out c => .out c | .kill => .kill | .die => .die | .adv => .adv
 
 inductive CEv
   | sub (o : SubOp)
